@@ -39,6 +39,22 @@ char *strdup(const char *s) {
 	for (size_t i = 0; i <= n; i++) d[i] = s[i];
 	return d;
 }
+char *strndup(const char *s, size_t n) {
+	size_t l = 0;
+	while (l < n) {
+#ifndef VERIF_REPLAY
+		/* a read outside the source object is reported once and ends the scan (keeps the loop bounded by the
+		 * object size instead of by n) */
+		if (!__CPROVER_r_ok(s + l, 1)) { __CPROVER_assert(0, "strndup reads outside its source object"); break; }
+#endif
+		if (s[l] == 0) break;
+		l++;
+	}
+	char *d = malloc(l + 1);
+	for (size_t i = 0; i < l; i++) d[i] = s[i];
+	d[l] = 0;
+	return d;
+}
 void *memcpy(void *d, const void *s, size_t n) {
 	unsigned char *dd = d; const unsigned char *ss = s;
 	for (size_t i = 0; i < n; i++) dd[i] = ss[i];
